@@ -89,6 +89,7 @@ var (
 	ErrEmptyWorkloadID             = errors.New("workload ID is empty")
 	ErrEmptyEntrypointName         = errors.New("entrypoint name is empty")
 	ErrUnderlineInEntrypointName   = errors.New("entrypoint name has '_' character")
+	ErrSlashInName                 = errors.New("name has '/' character")
 	ErrEmptyRawEngineOp            = errors.New("raw engine op is empty")
 
 	// Store
